@@ -491,7 +491,7 @@ fn gen_plan(rng: &mut Rng, mode: usize, builtins: bool) -> Vec<Proto> {
 // ------------------------------------------------------------------ running the implementation
 
 #[derive(Debug)]
-enum Outcome { Ok(Vec<AItem>), Err { variant: String, elem: String, name: String, p1: APos, p2: Option<APos>, diag: Option<APos>, message: String }, Panic(String), ParseFail(String) }
+enum Outcome { Ok(Vec<AItem>), Err { variant: String, elem: String, name: String, p1: APos, p2: Option<APos>, diag: Option<APos>, info: Vec<(APos, String)>, message: String }, Panic(String), ParseFail(String) }
 
 fn parse_debug_pos(s: &str, label: &str) -> Option<APos> {
     let i = s.find(label)? + label.len();
@@ -551,9 +551,26 @@ fn run_impl(files: &[(usize, String)], builtins: bool) -> Run {
                 };
                 let pe: PositionedError = e.into();
                 let diag = pe.position().map(|p| apos(&p));
+                // additional_info is private: read it from the derived Debug output
+                let pdbg = format!("{:?}", pe);
+                let mut info: Vec<(APos, String)> = vec![];
+                let mut info_ok = true;
+                match pdbg.rfind("additional_info: [") {
+                    None => info_ok = false,
+                    Some(i) => {
+                        let tail = &pdbg[i..];
+                        if !tail.starts_with("additional_info: []") {
+                            match (parse_debug_pos(tail, "additional_info: [("), tail.find("}, ").and_then(|j| parse_debug_str(&tail[j..], "}, "))) {
+                                (Some(p), Some(t)) => { info.push((p, t)); if tail.matches("Pos {").count() != 1 { info_ok = false; } }
+                                _ => info_ok = false,
+                            }
+                        }
+                    }
+                }
+                if !info_ok { info.push((APos { line: 999999, col: 0, file: 0, builtin: false }, format!("unreadable: {}", pdbg))); }
                 let message = format!("{}", pe.into_inner());
                 match p1 {
-                    Some(p1) => Outcome::Err { variant, elem, name, p1, p2, diag, message },
+                    Some(p1) => Outcome::Err { variant, elem, name, p1, p2, diag, info, message },
                     None => Outcome::Panic(format!("unreadable error value: {}", dbg)),
                 }
             }
@@ -651,10 +668,11 @@ fn main() {
                 descr["result"] = if slim { json!({"ok_items": out.len()}) } else { json!({"ok": out.iter().map(json_item).collect::<Vec<_>>()}) };
                 format!("(ROk {})", coq_list(out, |it| coq_item(it, &t)))
             }
-            Outcome::Err { variant, elem, name, p1, p2, diag, message } => {
+            Outcome::Err { variant, elem, name, p1, p2, diag, info, message } => {
                 *st.err_elem.entry(format!("{} {}", variant, elem)).or_insert(0) += 1;
                 descr["result"] = json!({"error": variant, "name_of_elem": elem, "name": name, "first": json_pos(p1),
-                                         "second": p2.as_ref().map(json_pos), "diagnostic_position": diag.as_ref().map(json_pos), "message": message});
+                                         "second": p2.as_ref().map(json_pos), "diagnostic_position": diag.as_ref().map(json_pos),
+                                         "additional_info": info.iter().map(|(p, t)| json!([pos_s(p), t])).collect::<Vec<_>>(), "message": message});
                 let e = if variant == "DuplicateOriginal" {
                     st.dup += 1;
                     format!("(DupOriginal {} {} {} {})", coq_str(elem), coq_str(name), coq_pos(p1), coq_pos(p2.as_ref().unwrap_or(p1)))
@@ -662,7 +680,8 @@ fn main() {
                     st.orphan += 1;
                     format!("(NoOriginal {} {})", coq_str(elem), coq_pos(p1))
                 };
-                format!("(RErr {} {})", e, coq_opt(diag, coq_pos))
+                format!("(RErr {} {} {} {})", e, coq_opt(diag, coq_pos),
+                        coq_list(info, |(p, t)| format!("({}, {})", coq_pos(p), coq_str(t))), coq_str(message))
             }
             Outcome::Panic(m) => { st.panic += 1; descr["result"] = json!({"panic": m}); "RPanic".to_string() }
             Outcome::ParseFail(m) => {
@@ -733,6 +752,7 @@ fn main() {
     let mut extra_sets: Vec<(&str, Vec<Proto>)> = vec![];
     if thorough {
         extra_sets.push(("perm-valid-6", vec![proto(Tag::Def, 4, "A"), proto(Tag::Ext, 4, "A"), proto(Tag::Ext, 4, "A"), proto(Tag::Def, 6, "B"), proto(Tag::Ext, 6, "B"), proto(Tag::Def, 4, "B")]));
+        extra_sets.push(("perm-valid-7", vec![proto(Tag::Def, 3, "A"), proto(Tag::Ext, 3, "A"), proto(Tag::Ext, 3, "A"), proto(Tag::Ext, 3, "A"), proto(Tag::Def, 2, "A"), proto(Tag::Ext, 2, "A"), proto(Tag::Dir, 0, "dd")]));
         extra_sets.push(("perm-mixed-6", vec![proto(Tag::Def, 2, "A"), proto(Tag::Def, 2, "A"), proto(Tag::Ext, 2, "A"), proto(Tag::Ext, 3, "A"), proto(Tag::Def, 0, ""), proto(Tag::Ext, 0, "")]));
     }
     for (origin, set) in base_sets.iter().chain(extra_sets.iter()) {
@@ -765,7 +785,7 @@ fn main() {
     let n_exhaustive = cases.len();
 
     // 2. random multisets of all kinds, shuffled, split across 1-4 files
-    let n_rand = if thorough { 50000 } else { 6000 };
+    let n_rand = if thorough { 120000 } else { 6000 };
     for _ in 0..n_rand {
         let builtins = rng.chance(1, 2);
         let mode = match rng.below(20) { 0..=10 => 0, 11..=13 => 1, 14..=16 => 2, 17 => 3, _ => 4 };
@@ -786,7 +806,7 @@ fn main() {
     let mut meta = json!({
         "evaluations": cases.len(),
         "distinct_nontrivial": distinct.len(),
-        "rule": "distinct = distinct (file index, file text, builtins flag) tuples; every case has >= 1 definition or extension rendered to SDL, parsed by the real parser, merged and resolved by the real resolver, so every case is non-trivial; exhaustive part = all orders of 4 (thorough: 6) fixed small multisets, each as one file / one file per item (/ random split)",
+        "rule": "distinct = distinct (file index, file text, builtins flag) tuples; every case has >= 1 definition or extension rendered to SDL, parsed by the real parser, merged and resolved by the real resolver, so every case is non-trivial; exhaustive part = all orders of 4 (thorough: 7) fixed small multisets of 4-5 (thorough: up to 7) items, each as one file / one file per item (/ random split)",
         "samples": samples,
         "distribution": {
             "exhaustive_permutation_cases": n_exhaustive, "random_cases": cases.len() - n_exhaustive,
